@@ -178,6 +178,11 @@ func (rm *RpcMultiplexer) NewStreamReadWriter(
 				if err := rm.readErrorIfDone(); err != nil {
 					return nil, err
 				}
+				if err := ctx.Err(); err != nil {
+					// Both are ready: the stream was let go of because its
+					// context ended, and that is what its caller is told.
+					return nil, err
+				}
 				return nil, fmt.Errorf("respChan closed")
 			case <-ctx.Done():
 				return nil, ctx.Err()
